@@ -62,6 +62,34 @@ def Scalar (cp : Nat) : Prop := cp ≤ 0x10FFFF ∧ ¬ (0xD800 ≤ cp ∧ cp ≤
 def shortestLen (cp : Nat) : Nat :=
   if cp ≤ 0x7F then 1 else if cp ≤ 0x7FF then 2 else if cp ≤ 0xFFFF then 3 else 4
 
+/-- RFC 3629 §3, encoding direction, by division (used only to show that the relation `Rfc3629`
+is total on scalar values) -/
+def encode (cp : Nat) : Bytes :=
+  if cp ≤ 0x7F then [UInt8.ofNat cp]
+  else if cp ≤ 0x7FF then [UInt8.ofNat (0xC0 + cp / 64), UInt8.ofNat (0x80 + cp % 64)]
+  else if cp ≤ 0xFFFF then
+    [UInt8.ofNat (0xE0 + cp / 4096), UInt8.ofNat (0x80 + cp / 64 % 64), UInt8.ofNat (0x80 + cp % 64)]
+  else
+    [UInt8.ofNat (0xF0 + cp / 262144), UInt8.ofNat (0x80 + cp / 4096 % 64),
+     UInt8.ofNat (0x80 + cp / 64 % 64), UInt8.ofNat (0x80 + cp % 64)]
+
+/-- total length announced by a first byte (RFC 3629 §4: which `UTF8-n` rule can start with it) -/
+def seqLen (lead : Nat) : Option Nat :=
+  if lead ≤ 0x7F then some 1
+  else if 0xC2 ≤ lead ∧ lead ≤ 0xDF then some 2
+  else if 0xE0 ≤ lead ∧ lead ≤ 0xEF then some 3
+  else if 0xF0 ≤ lead ∧ lead ≤ 0xF4 then some 4
+  else none
+
+/-! ## encoding names: what "the same name" means (IANA-style loose matching) -/
+
+def alnum (c : Nat) : Bool := (48 ≤ c && c ≤ 57) || (65 ≤ c && c ≤ 90) || (97 ≤ c && c ≤ 122)
+def lower (c : Nat) : Nat := if 65 ≤ c ∧ c ≤ 90 then c + 32 else c
+
+/-- the significant part of an encoding name: ASCII letters and digits up to the first NUL,
+letters lower-cased -/
+def normName (name : List Nat) : List Nat := ((name.takeWhile (· != 0)).filter alnum).map lower
+
 /-- Control characters (Unicode general category Cc): C0 `U+0000–U+001F`, DEL `U+007F`,
 C1 `U+0080–U+009F`. -/
 def isControl (cp : Nat) : Bool := cp ≤ 0x1F || (0x7F ≤ cp && cp ≤ 0x9F)
@@ -78,6 +106,20 @@ def WellFormed (html : Bool) (s : Bytes) (n : Nat) : Prop :=
   ∃ chars : List (Nat × Bytes),
     s = (chars.map (·.2)).flatten ∧ chars.length = n ∧
     ∀ ch ∈ chars, Rfc3629 ch.1 ch.2 ∧ modeOk html ch.1 = true
+
+/-- the shape booster's decoder calls `incomplete`: nothing, or a lead byte followed by fewer
+trail bytes than it announces (and nothing else) -/
+def Truncated (bs : Bytes) : Prop :=
+  bs = [] ∨ ∃ a ts n, bs = a :: ts ∧ seqLen a.toNat = some n ∧ ts.length + 1 < n ∧
+    ∀ t ∈ ts, Spec.tail t.toNat = true
+
+/-- no character of the mode can be read at the head of `suf` -/
+def Undecodable (html : Bool) (suf : Bytes) : Prop :=
+  suf ≠ [] ∧ ¬ ∃ v enc rest, suf = enc ++ rest ∧ Rfc3629 v enc ∧ modeOk html v = true
+
+/-- admissible replacement for `validate_or_filter` (UTF-8): 0 (= delete) or a byte that is by
+itself HTML-safe well-formed text -/
+def ReplOk (repl : UInt8) : Prop := repl = 0 ∨ ∃ n, WellFormed true [repl] n
 
 /-! ## executable decision procedure for the judge (greedy parse by the table above) -/
 
